@@ -254,6 +254,13 @@ def step (line : String) : String :=
                | none => "-:0") ++ ":" ++ hexOfString q.expected.1 ++ ":" ++ toString q.expected.2) "ok"
       | none => "ERR sections"
     | _, _, _ => "ERR header"
+  | ["superimpose.sbs_rewrite", sbs, supplied, name, value] =>
+    -- supplied: comma separated option names given on the command line (`-` = none)
+    match natOfField sbs, stringOfField name, stringOfField value with
+    | some sbs, some name, some value =>
+      let sup : List String := if supplied = "-" then [] else supplied.splitOn ","
+      "ok " ++ hexOfString (String.ofList (sbsRewrite (sbs != 0) (fun n => sup.contains n) name value.toList))
+    | _, _, _ => "ERR"
   | _ => "ERR unknown"
 
 end SuperimposeDriver
